@@ -678,12 +678,14 @@ def run(tier, replay=None):
     found = found or wfound
     ares, afound = rc.check_atoms(core, chk, cases, imap, amap, found_so_far=found) if lres.get("driver_ok") else ({}, False)
     found = found or afound
+    cres, cfound = rc.check_chain(core, chk, cases, amap) if lres.get("driver_ok") else ({}, False)
+    found = found or cfound
     chk.cov.update({
         "evaluations": len(cases), "distinct_nontrivial": len(distinct),
         "rule": "generated regex (<=12 AST nodes) x buffer (<=200 bytes) built from sampled instances / mutations; non-trivial = the specification admits at least one match "
                 "in the buffer (strings) or any verdict (matches operator); distinct (regex, modifiers, buffer)",
         "histogram": hist, "violating_cases": nviol, "known_finding_cases": {k: len(v) for k, v in known_hits.items()},
-        "traces_validated_against_impl": len(cases) - nviol, "fx": fxres.get("cov"), "wfx": wres, "atoms_tie": ares,
+        "traces_validated_against_impl": len(cases) - nviol, "fx": fxres.get("cov"), "wfx": wres, "atoms_tie": ares, "chain_tie": cres,
         "samples": [{"meta": metas.get(c.split(" ", 1)[0]), "implementation": imap.get(c.split(" ", 1)[0], "")[:300], "model": mmap.get(c.split(" ", 1)[0], "")[:300]}
                     for c in cases[len(CORPUS):len(CORPUS) + 2]],
     })
